@@ -153,6 +153,9 @@ func race(file string, sps []solverSpec, timeoutS int) (solveOut, []solveOut) {
 	best.answer = "unknown"
 	for range sps {
 		o := <-ch
+		if o.solver == "cvc5-bvint" && o.answer == "error" {
+			o.answer = "unknown" // the integer translation does not cover every query
+		}
 		if o.answer == "sat" && (o.solver == "cvc5-bvint" || o.solver == "z3-new-qi") {
 			// these configurations are used to refute only: a model from the integer
 			// translation, or from a run without model-based instantiation, is not
